@@ -136,4 +136,96 @@ theorem C07_chained (H : Ham) (hw : H.WFc) (a b d : Taxon) (hab : a <:+ b) (hne 
           rw [lost_iff_search H b d ⟨y, post⟩ hyl] at hlost
           exact hlost r hr y (by rw [hsb]) rfl
 
+/-! ### gained = the family is younger than the ancestral genome -/
+
+/-- the taxon of the root of the family a located member belongs to (its top-level HOG, or the member itself): on a chain the
+    j-th ancestor sits j+1 levels up, so the last one sits `anc.length` levels up -/
+def Loc.rootTx (l : Loc) : Taxon := l.node.tx.drop l.anc.length
+
+theorem rootTx_is_top (H : Ham) (hw : H.WFc) (r : Loc) (hr : r ∈ H.allLocs) :
+    (r.anc = [] → r.rootTx = r.node.tx) ∧ (∀ top, r.anc.getLast? = some top → top.tx = r.rootTx) := by
+  constructor
+  · intro h; simp [Loc.rootTx, h]
+  · intro top ht
+    have hc := allLocs_chain hw hr
+    have hne : r.anc ≠ [] := by intro h; simp [h] at ht
+    have hpos : 0 < r.anc.length := List.length_pos_iff.mpr hne
+    have hi : r.anc.length - 1 < r.anc.length := by omega
+    have htx := chain_tx_drop _ _ hc (r.anc.length - 1) hi
+    have hl : r.anc[r.anc.length - 1] = top := by
+      rw [List.getLast?_eq_getElem?] at ht
+      have := List.getElem?_eq_getElem hi
+      rw [this] at ht
+      exact Option.some.inj ht
+    rw [hl] at htx
+    have : r.anc.length - 1 + 1 = r.anc.length := by omega
+    rw [this] at htx
+    exact htx
+
+/-- **C06, first clause, read off the family**: a member of a genome below `a` has no ancestor in the genome at `a` --
+    it is reported as GAINED in the comparison with `a` -- iff its family's root is younger than `a` (strictly below it);
+    equivalently iff its chain of ancestors is too short to reach `a` -/
+theorem gained_iff_young (H : Ham) (hw : H.WFc) (a : Taxon) (r : Loc) (hr : r ∈ H.allLocs)
+    (had : a <:+ r.node.tx) (hne : a ≠ r.node.tx) :
+    ((search a r).1 = none ↔ r.anc.length + a.length < r.node.tx.length) ∧
+    ((search a r).1 = none ↔ ¬ (r.rootTx <:+ a)) := by
+  have hc := allLocs_chain hw hr
+  have hlen := chain_length_le _ _ hc
+  have hale : a.length ≤ r.node.tx.length := had.length_le
+  have halt : a.length < r.node.tx.length := by
+    rcases Nat.lt_or_ge a.length r.node.tx.length with h | h
+    · exact h
+    · exact absurd (had.eq_of_length (Nat.le_antisymm hale h)) hne
+  have hdrop : a = r.node.tx.drop (r.node.tx.length - a.length) := List.suffix_iff_eq_drop.mp had
+  have first : (search a r).1 = none ↔ r.anc.length + a.length < r.node.tx.length := by
+    rw [search_none_iff]
+    constructor
+    · intro h
+      rcases Nat.lt_or_ge (r.anc.length + a.length) r.node.tx.length with hlt | hge
+      · exact hlt
+      · exfalso
+        have hi : r.node.tx.length - a.length - 1 < r.anc.length := by omega
+        have htx := chain_tx_drop _ _ hc (r.node.tx.length - a.length - 1) hi
+        have : r.node.tx.length - a.length - 1 + 1 = r.node.tx.length - a.length := by omega
+        rw [this, ← hdrop] at htx
+        exact h _ (List.getElem_mem hi) htx
+    · intro h y hy hya
+      obtain ⟨i, hi, rfl⟩ := List.mem_iff_getElem.mp hy
+      have htx := chain_tx_drop _ _ hc i hi
+      rw [hya] at htx
+      have := congrArg List.length htx
+      rw [List.length_drop] at this
+      omega
+  refine ⟨first, ?_⟩
+  rw [first]
+  unfold Loc.rootTx
+  constructor
+  · intro h hs
+    have := hs.length_le
+    rw [List.length_drop] at this
+    omega
+  · intro h
+    rcases Nat.lt_or_ge (r.anc.length + a.length) r.node.tx.length with hlt | hge
+    · exact hlt
+    · exfalso
+      apply h
+      -- a = tx.drop k with k ≤ anc.length: tx.drop anc.length is a suffix of it
+      rw [hdrop]
+      have : r.anc.length = (r.node.tx.length - a.length) + (r.anc.length - (r.node.tx.length - a.length)) := by omega
+      rw [this, ← List.drop_drop]
+      exact List.drop_suffix _ _
+
+/-- ... hence, for a comparison `a → d` of a well-formed analysis: the GAINED genes are exactly the members of `d` whose family
+    is rooted strictly below `a` -/
+theorem C06_gained_iff_family_younger (H : Ham) (hw : H.WFc) (a d : Taxon) (had : a <:+ d) (hne : a ≠ d) (n : Node) :
+    n ∈ (hogsMap H a d).gain ↔ ∃ r ∈ H.nodesAt d, r.node = n ∧ ¬ (r.rootTx <:+ a) := by
+  rw [gained_iff_search]
+  constructor
+  · rintro ⟨r, hr, hn, hs⟩
+    obtain ⟨hrl, hrt⟩ := nodesAt_allLocs hr
+    exact ⟨r, hr, hn, ((gained_iff_young H hw a r hrl (by rw [hrt]; exact had) (by rw [hrt]; exact hne)).2).mp hs⟩
+  · rintro ⟨r, hr, hn, hs⟩
+    obtain ⟨hrl, hrt⟩ := nodesAt_allLocs hr
+    exact ⟨r, hr, hn, ((gained_iff_young H hw a r hrl (by rw [hrt]; exact had) (by rw [hrt]; exact hne)).2).mpr hs⟩
+
 end Pyham
